@@ -182,14 +182,19 @@ def clean_header(fmt):
     return images.clean(fmt, **kw)[0]
 
 
-def feed_inspector(fmt, data, sizes, feed='bytes', refill=None):
+def feed_inspector(fmt, data, sizes, feed='bytes', refill=None, forms=None):
     """Feed one real inspector the way the wrapper does (not fed again after it raised), finish.
     `feed`: how a chunk is presented - immutable bytes, or a view of ONE reused buffer (the
     `n = f.readinto(buf); eat_chunk(buf[:n])` idiom: bytearray slice copy / memoryview slice).  After the last
     chunk the buffer is overwritten with `refill` (default 0xEE): what the inspector concludes is a function
     of the bytes it was shown, not of what the caller does with its buffer afterwards."""
     F = fi()
-    i = F.ALL_FORMATS[fmt]()
+    eat_kw = False
+    if forms:            # (constructor tag, tracing value, eat_chunk by keyword): legal forms of the pinned signatures
+        ctag, tracing, eat_kw = forms
+        i = invoke(F.ALL_FORMATS[fmt], 'FileInspector', [tracing], ctag, shown=F.ALL_FORMATS[fmt].__name__)
+    else:
+        i = F.ALL_FORMATS[fmt]()
     raised = None
     chunks = insp_impl.cut(data, sizes)
     buf = bytearray(max([len(c) for c in chunks] + [1])) if feed != 'bytes' else None
@@ -205,7 +210,16 @@ def feed_inspector(fmt, data, sizes, feed='bytes', refill=None):
                 arg = bytearray(n)
                 arg[:] = chunk
         try:
-            i.eat_chunk(arg)
+            if eat_kw:
+                i.eat_chunk(chunk=arg)
+            else:
+                i.eat_chunk(arg)
+        except TypeError as e:
+            if eat_kw and 'argument' in str(e):
+                raise CallFormError('eat_chunk(chunk=<%d bytes>) is a legal call of the pinned signature but raises '
+                                    'TypeError: %s' % (len(arg), e))
+            raised = type(e).__name__
+            break
         except Exception as e:
             raised = type(e).__name__
             break
@@ -371,6 +385,15 @@ def usage(u=None, **kw):
     d.update(u or {})
     d.update(kw)
     return d
+
+
+def pick_insp_forms(rng, p_plain=0.6):
+    """how a bare inspector is constructed and fed: FileInspector(tracing=False) positional / keyword / omitted,
+    tracing on or off, eat_chunk(chunk) positional or by keyword"""
+    if rng.random() < p_plain:
+        return None
+    tracing = rng.random() < 0.4
+    return (rng.choice(call_tags('FileInspector', [tracing])), tracing, rng.random() < 0.5)
 
 
 def pick_usage(rng, expected, allowed, iterator=False, p_plain=0.5):
